@@ -4,3 +4,6 @@ set -e
 cd "$(dirname "$0")"
 export CARGO_NET_OFFLINE=true
 cd mc && cargo build --release --offline 2>&1 | tail -3
+# Python extension used by C19 / C20 (rebuilt by ./check whenever /repo changes)
+( cd /repo && CARGO_TARGET_DIR=/verif/target/py cargo build -p oxmpl-py --features oxmpl/verif --release --offline 2>&1 | tail -2 )
+mkdir -p /verif/target/py/site && cp /verif/target/py/release/liboxmpl_py.so /verif/target/py/site/oxmpl_py.so
